@@ -452,19 +452,49 @@ func (c *Client) Tx(ctx context.Context, hash []byte, prove bool) (*ctypes.Resul
 		return res, err
 	}
 
+	if !bytes.Equal(res.Hash, hash) {
+		return nil, fmt.Errorf("tx hash %X does not match the requested hash %X", res.Hash, hash)
+	}
+
+	if err := c.verifyTx(ctx, res); err != nil {
+		return nil, err
+	}
+	return res, nil
+}
+
+// verifyTx checks a transaction that comes with an inclusion proof against the
+// trusted header of its height. The proof binds Proof.Data (the transaction),
+// at position Proof.Proof.Index, to the header's data hash; the remaining
+// fields of the result describing the transaction (Tx, Hash, Index) must agree
+// with what was proven.
+func (c *Client) verifyTx(ctx context.Context, res *ctypes.ResultTx) error {
 	// Validate res.
 	if res.Height <= 0 {
-		return nil, errNegOrZeroHeight
+		return errNegOrZeroHeight
 	}
 
 	// Update the light client if we're behind.
 	l, err := c.updateLightClientIfNeededTo(ctx, &res.Height)
 	if err != nil {
-		return nil, err
+		return err
 	}
 
 	// Validate the proof.
-	return res, res.Proof.Validate(l.DataHash)
+	if err := res.Proof.Validate(l.DataHash); err != nil {
+		return err
+	}
+
+	if !bytes.Equal(res.Tx, res.Proof.Data) {
+		return fmt.Errorf("tx %X does not match the proven tx %X", res.Tx, res.Proof.Data)
+	}
+	if txH := res.Tx.Hash(); !bytes.Equal(res.Hash, txH) {
+		return fmt.Errorf("tx hash %X does not match the hash of the proven tx %X", res.Hash, txH)
+	}
+	if int64(res.Index) != res.Proof.Proof.Index {
+		return fmt.Errorf("tx index %d does not match the proven index %d", res.Index, res.Proof.Proof.Index)
+	}
+
+	return nil
 }
 
 func (c *Client) TxSearch(
